@@ -48,7 +48,7 @@ REGISTRY = {
     "C18": {
         "level": "proof",
         "modules": ["CoCoVerif.Props.C18", "CoCoVerif.Props.C18Reloc", "CoCoVerif.Props.C18RelocSrc", "CoCoVerif.Props.C18RelocText",
-                    "CoCoVerif.Props.C18Rename", "CoCoVerif.Props.C18RenameFull"],
+                    "CoCoVerif.Props.C18Rename", "CoCoVerif.Props.C18RenameFull", "CoCoVerif.Props.C18RelocLists"],
         "theorems": _T["C18"],
         "rule": "cases = generated programs (ORG first, origin >= $100, label references label / label+-n, branches, PCR, data) each assembled in five "
                 "variants: base, origin shifted by D, labels renamed by a bijection, reformatted (white space, comments, mnemonic case), extended by a "
@@ -284,11 +284,12 @@ MANIFEST_TEXT = {'C02': {'text': 'Lean: C02_full_v2 : C02_Statement_v2 (Props/C0
                  'C18_R2_full is the repaired form. Not covered by a closed theorem: the text-level lifting for every operand syntax (decided per program by '
                  'renamedTextB, and by the metamorphic oracle).',
          'design_ref': 'DESIGN.md section 5 C18',
-         'note': "R1: the *_any theorems need only o + D < 65536 (the older family additionally ORG >= $100 and says more about value renderings); R2's "
-                 'text-level lifting is per program; finding S1 repaired by 4e31349; since batch 8 (list elements with symbols) the R1 finish theorems carry '
-                 'the hypothesis ListsConst (no LABEL element in an FCB/FDB list: a jump table legitimately moves with the program, witness '
-                 "reloc_list_label_witness) and R2's RenOK the decidable NoPendingLists (list elements are literals) - both vacuous before, when such lists "
-                 'were rejected',
+         'note': 'R1: the *_any theorems need only o + D < 65536; the whole-program finish theorems carry ListsConst (no LABEL element in an FCB/FDB list), '
+                 'and for label elements the element / list / statement-level theorems of Props/C18RelocLists say what happens instead: a label word moves by '
+                 'exactly D (C18_R1_list_label, reloc_list_stmt_words), label +- k by D mod 65536, label - label not at all; R2: RenOK asks the pending list '
+                 'elements to be simple texts (ListsSimple) and the operand texts of such lists to be renamed element-wise (TxtOK; witness '
+                 'C18_R2_witness_jumptable), with texts left alone it needs NoPendingLists; the text-level lifting for every operand syntax is per program '
+                 '(decidable check); finding S1 repaired by 4e31349',
          'technique': 'Lean 4 proof (scanner canonical form; prefix stability through all passes) + metamorphic oracle on the implementation + differential '
                       'correspondence'},
  'C19': {'text': 'Lean: C19_full : C19_Statement - include_textual_full (for every file system, prefix, suffix and INCLUDE line: assembling with INCLUDE f '
